@@ -16,8 +16,7 @@ ASSUMPTIONS = []
 
 
 def cases(tier, rng):
-    G = 4 if tier == 'quick' else 6
-    for t in _c19.grid_triples(G):
+    for t in (list(_c19.grid_triples(4)) + list(_c19.grid_multisets(7)) if tier == 'quick' else _c19.grid_triples(7)):
         yield J('tri_contains_map', *t, 1)
     n = 1200 if tier == 'quick' else 20000
     for i in range(n):
@@ -31,8 +30,7 @@ def cases(tier, rng):
 
 
 def search(tier, rng):
-    G = 4 if tier == 'quick' else 6
-    for t in _c19.grid_triples(G):
+    for t in (list(_c19.grid_triples(5)) + list(_c19.grid_multisets(7)) if tier == 'quick' else _c19.grid_triples(7)):
         yield J('p_tri_c05', *t, 2)
     n = 2500 if tier == 'quick' else 40000
     for _ in range(n):
